@@ -20,6 +20,12 @@ META = {
     "C06": {"technique": "property-based testing (rapid) + enumeration of all 255 TTLs; oracle: independent codec validity + ledger invariants",
             "text": "Every packet handed to Sink.WriteTo is decoded and verified by a codec that shares no code with gopacket (lengths, checksums incl. pseudo-headers, TTL, flags), and the ledger is checked for order, pacing, flow constancy, identifier uniqueness, stop-after-destination and reported endpoints.",
             "note": SIM},
+    "C07": {"technique": "property-based testing (rapid) + bounded exhaustive enumeration of delivery sequences/time slots; oracle: reference fold over the log of what ReceiveProbe returned",
+            "text": "The parallel engine is driven by a scripted driver whose deliveries carry explicit virtual time stamps in slots around every send instant and the deadline (+-1 ns forces both orders of send vs deliver). Output must equal the fold first-wins/destination-overrides/clip-at-lowest-destination over the returned log, every delivery due before the deadline must be taken, and the sender must stop after a destination reply. The space up to 3 TTLs x 3 deliveries x all slots is enumerated completely in the thorough tier.",
+            "note": "Trusted base: scripted driver and reference fold in the harness; testing/synctest scheduling (goroutine order at equal virtual instants is chosen by the Go scheduler, the +-1 ns slots are what forces the orders)."},
+    "C09": {"technique": "property-based testing (rapid, structure-aware mutation) + exhaustive truncation and TCP-option sweeps + native coverage-guided go fuzzing; oracle: no crash/abort + differential against the noise-free run",
+            "text": "Hostile packets are derived from the genuine replies of the running scenario (or are arbitrary bytes) and injected at a drawn instant of a run of every variant; the run must neither crash nor abort and packets the independent codec judges malformed must not change the result. Every truncation length of every reply form and a product of TCP option kinds x declared lengths are enumerated completely; the thorough tier adds 8 native fuzz targets (7 variants + the frame parser alone).",
+            "note": SIM + " The SACK-specific permitted end is recognised by the model as: a segment on the probed connection's tuple was read AND the tool reported NotSupportedError. Leniencies of the decoder in use (length field 0 or beyond the capture, quoted version nibble) are classified as structurally valid and not asserted."},
 }
 NOT_APPLICABLE = []
 NOTES = "See DESIGN.md. All checks rebuild the harness against /repo's current working tree; quick tier uses a fixed rapid seed derived from VERIF_SEED and replays /verif/corpus first; thorough tier shards seeds over 16 processes and adds native fuzzing where registered."
